@@ -450,6 +450,8 @@ def run_exec(ctx, recs, procs=4):
                 fail = "compiler crashed: " + (r["crashed"].get("stderr") or "")[-300:]
             elif b is None:
                 fail = "no Built event"
+            elif b.get("timeout"):
+                raise ToolError("vh-exec: package %s timed out (machine load?)" % pid)
             elif not b["ok"]:
                 fail = "build failed: " + (b.get("panic") or b.get("err") or "") + " " + (b.get("diag") or "")[-600:]
             elif r["runfailed"]:
